@@ -294,10 +294,10 @@ pub fn check_data(choices: &Vec<u16>) -> Out {
 pub fn run(ctx: &Ctx) {
     ctx.set_rule("source text from a grammar over the parser's complete instruction table (every form of the table is emitted in the first cases, then random), nested bodies, docs, imports with aliases, unused imports, re-exports, constants with expressions, 0..4 procedures with locals, programs and modules; libraries of 1..4 modules with/without source locations and dependencies; data values (Kernel with 0..255 digests, ProgramInfo, StackInputs 0..100, StackOutputs with overflow); oracle: from_bytes(to_bytes(x)) with reloaded locations (and re-attached imports when not serialised) == x for both import settings, re-encoding gives the same bytes, compiling original and round-tripped AST gives the same MAST root, kernel and call-target set and the same execution outcome, libraries equal and equally usable; non-trivial = >= 5 distinct instruction forms or nesting or imports; distinct by source text, plus one fingerprint per instruction form exercised");
     ctx.set_extra("instruction_forms_in_table", json!(FORMS.len() + LOCAL_FORMS.len() + 5));
-    ctx.run("program-table-walk", ctx.n(400, 20_000), || vec(any::<u16>(), 300..2500), |c| check_program(c, true));
-    ctx.run("program", ctx.n(4000, 500_000), || vec(any::<u16>(), 20..1500), |c| check_program(c, false));
-    ctx.run("module+library", ctx.n(2500, 300_000), || vec(any::<u16>(), 20..1200), check_module);
-    ctx.run("data", ctx.n(3000, 300_000), || vec(any::<u16>(), 60..500), check_data);
+    ctx.run("program-table-walk", ctx.n(400, 3_000), || vec(any::<u16>(), 300..2500), |c| check_program(c, true));
+    ctx.run("program", ctx.n(4000, 60_000), || vec(any::<u16>(), 20..1500), |c| check_program(c, false));
+    ctx.run("module+library", ctx.n(2500, 40_000), || vec(any::<u16>(), 20..1200), check_module);
+    ctx.run("data", ctx.n(3000, 100_000), || vec(any::<u16>(), 60..500), check_data);
 }
 
 pub fn replay(ctx: &Ctx, v: &serde_json::Value) {
